@@ -66,7 +66,11 @@ def replay(beh, opts):
             elif n == "setx":
                 objs[a["side"]].a.x = a["v"]
             elif n == "attach":
-                objs[a["side"]].a = Leaf(x=a["v"])
+                o = objs[a["side"]]
+                if o.a is not None:
+                    # the replaced sub-object stays referenced from an ordinary attribute (it is copied along)
+                    o.__dict__.setdefault("retired", []).append(o.a)
+                o.a = Leaf(x=a["v"])
             elif n == "mutate":
                 objs[a["side"]].l.append(1)
             elif n == "setpb":
